@@ -15,7 +15,7 @@ import types
 
 import z3
 
-from .values import (Internal, SBool, SEnum, SInt, SReal, Sym, SymBytes, SymBytesFn, SymCArray, SymStructArray,
+from .values import (Internal, SBool, SEnum, SInt, SReal, Sym, SymBytes, SymBytesFn, SymCArray, SymContainer, SymStructArray,
                      SymEscape, SymStruct, Unsupported, has_sym, lift, lift_int, lift_real,
                      mk_bool, mk_int)
 
@@ -26,7 +26,7 @@ def _PyExc(e):
 
 
 # ---------------------------------------------------------------- symbolic containers
-class SymMap:
+class SymMap(SymContainer):
     """dict with integer keys modelled as a z3 array  key -> slot, where slot is an Int
     and a parallel Bool array says whether the key is present.  Values are either
     Optional ints ("optint": a presence bit + int) or opaque.  Used for register files,
@@ -60,7 +60,7 @@ class SymMapView(SymMap):
     val = property(lambda self: self.base.val, lambda self, v: setattr(self.base, "val", v))
 
 
-class OptInt:
+class OptInt(SymContainer):
     """symbolic Optional[int]: ``isnone`` Bool term, ``val`` Int term"""
 
     def __init__(self, isnone, val):
@@ -71,7 +71,7 @@ class OptInt:
         return f"OptInt({self.isnone},{self.val})"
 
 
-class SymList:
+class SymList(SymContainer):
     """list of symbolic length whose elements are Optional ints:
     length term + arrays (isnone, val) indexed 0..len-1.  Mutable (stores rebind)."""
 
@@ -88,7 +88,7 @@ class SymList:
         return f"SymList({self.name})"
 
 
-class SymKeyDict:
+class SymKeyDict(SymContainer):
     """dict whose keys are (possibly symbolic) ints and whose values are arbitrary objects (e.g. SymList):
     a finite list of entries with pairwise distinct keys; a lookup forks over which entry matches.
     Abstraction of 'a table with arbitrarily many arrays' by the entries an operation can distinguish."""
@@ -113,7 +113,7 @@ class SymKeyDict:
         return f"SymKeyDict({self.name},{len(self.entries)} entries)"
 
 
-class SymIntSet:
+class SymIntSet(SymContainer):
     """set of ints as a z3 array Int -> Bool (mutable: add/remove rebind)"""
 
     def __init__(self, name, arr=None):
@@ -149,6 +149,16 @@ def _fold_opt(it, v):
 def equal(it, a, b):
     a = _fold_opt(it, a)
     b = _fold_opt(it, b)
+    from . import segstr as _ss
+    if isinstance(a, SegStr) or isinstance(b, SegStr):
+        if isinstance(a, (str, SegStr)) and isinstance(b, (str, SegStr)):
+            return _ss.equal(it, a, b)
+        return False
+    if isinstance(a, _ss.DigitChar) or isinstance(b, _ss.DigitChar):
+        o = b if isinstance(a, _ss.DigitChar) else a
+        if isinstance(o, str) and (len(o) != 1 or o not in _ss.DIGITS):
+            return False
+        raise Unsupported("comparison with an unknown digit")
     if isinstance(a, SEnum) or isinstance(b, SEnum):
         if isinstance(a, SEnum) and isinstance(b, SEnum):
             if a.cls is not b.cls:
@@ -276,6 +286,13 @@ _ORD = {ast.Lt: lambda x, y: x < y, ast.LtE: lambda x, y: x <= y, ast.Gt: lambda
 def order(it, op, a, b):
     a = _fold_opt(it, a)
     b = _fold_opt(it, b)
+    from . import segstr as _ss
+    if isinstance(a, _ss.SegCharSet):
+        if isinstance(op, ast.LtE):
+            return _ss.charset_le(it, a, b)
+        if isinstance(op, ast.Lt):
+            return _ss.charset_le(it, a, b, strict=True)
+        raise Unsupported("ordering of character sets")
     f = _ORD[type(op)]
     if isinstance(a, Sym) or isinstance(b, Sym):
         if a is None or b is None:
@@ -327,6 +344,22 @@ def contains(it, c, x):
         return c.find(it, x) is not None
     if isinstance(c, SegStr):
         return c.contains(it, x)
+    from . import segstr as _ss
+    if isinstance(x, _ss.DigitChar):
+        if isinstance(c, (str, list, tuple, set, frozenset)):
+            cs = set(c)
+            if set(_ss.DIGITS) <= cs:
+                return True
+            if not (set(_ss.DIGITS) & cs):
+                return False
+        raise Unsupported("membership of an unknown digit")
+    if isinstance(x, SegStr):
+        if isinstance(c, (list, tuple)):
+            return _disj(it, [equal(it, x, k) for k in c])
+        if isinstance(c, (dict, set, frozenset)):
+            return _disj(it, [equal(it, x, k) for k in c])
+        if isinstance(c, str):
+            raise Unsupported("segment string as a needle")
     if has_sym(x):
         raise Unsupported(f"'in' with symbolic element on {type(c).__name__}")
     cls = type(c)
@@ -344,7 +377,7 @@ def contains(it, c, x):
 
 
 # ---------------------------------------------------------------- sets of hashable repo values (symbolic membership)
-class SymSet:
+class SymSet(SymContainer):
     """set over a finite concrete universe with symbolic membership bits.
     ``bits``: dict element -> z3 Bool term (mutable: add/remove rebind)."""
 
@@ -863,7 +896,7 @@ def bytesfn_getitem(it, o, k):
 
 
 # ---------------------------------------------------------------- strings (segment strings)
-class SegStr:
+class SegStr(SymContainer):
     """string made of literal pieces and ``dec(n)`` holes (decimal rendering of a symbolic
     int).  parts: list of str | ('dec', SInt)"""
 
@@ -886,6 +919,8 @@ class SegStr:
 
     def contains(self, it, x):
         from . import segstr
+        if isinstance(x, SegStr):
+            raise Unsupported("segment string as a needle")
         return segstr.contains(it, self, x)
 
     def getitem(self, it, k):
@@ -1242,7 +1277,7 @@ def _str_join(it, sep, parts):
     return str_concat(it, out)
 
 
-class SymFamily:
+class SymFamily(SymContainer):
     """list of symbolic length n whose element i is ``elem(i_term)`` (python value possibly
     containing terms over i)."""
 
@@ -1280,7 +1315,33 @@ def _sis_discard(it, s, x):
     s.arr = z3.Store(s.arr, lift_int(_fold_opt(it, x)), z3.BoolVal(False))
 
 
+def _ss_call(name):
+    def f(it, s, *a, **k):
+        from . import segstr as _ss
+        return getattr(_ss, name)(it, s, *a, **k)
+    return f
+
+
+def _ss_lstrip(it, s, chars=None):
+    from . import segstr as _ss
+    return _ss.strip(it, s, chars, True, False)
+
+
+def _ss_rstrip(it, s, chars=None):
+    from . import segstr as _ss
+    return _ss.strip(it, s, chars, False, True)
+
+
+def _ss_strip(it, s, chars=None):
+    from . import segstr as _ss
+    return _ss.strip(it, s, chars, True, True)
+
+
 _METHODS = {
+    (SegStr, "find"): _ss_call("find"), (SegStr, "startswith"): _ss_call("startswith"), (SegStr, "endswith"): _ss_call("endswith"),
+    (SegStr, "split"): _ss_call("split"), (SegStr, "lower"): _ss_call("lower"), (SegStr, "upper"): _ss_call("upper"),
+    (SegStr, "replace"): _ss_call("replace"), (SegStr, "count"): _ss_call("count"),
+    (SegStr, "strip"): _ss_strip, (SegStr, "lstrip"): _ss_lstrip, (SegStr, "rstrip"): _ss_rstrip,
     (SymKeyDict, "get"): _skd_get,
     (SymKeyDict, "pop"): _skd_pop,
     (SymIntSet, "add"): _sis_add,
@@ -1412,6 +1473,8 @@ def _len(it, o):
         return mk_int(o.length)
     if isinstance(o, SymFamily):
         return mk_int(o.n)
+    if isinstance(o, SymKeyDict):
+        return len(o.entries)
     if isinstance(o, SymCArray):
         return len(o.vals)
     if isinstance(o, SymStructArray):
@@ -1534,6 +1597,9 @@ def _list(it, *a):
 def _set(it, *a):
     if not a:
         return set()
+    if isinstance(a[0], SegStr):
+        from . import segstr as _ss
+        return _ss.charset(it, a[0])
     if isinstance(a[0], SymSet):
         return SymSet(a[0].name + "'", a[0].universe, dict(a[0].bits))
     return make_set(it, list(it.iterate(a[0])))
@@ -1591,6 +1657,20 @@ def _abs(it, v):
     return it.native(abs, [v], {})
 
 
+def _filter(it, f, xs):
+    out = []
+    for x in it.iterate(xs):
+        t = it.truth(x) if f is None else it.truth(it.call(f, [x], {}))
+        if t:
+            out.append(x)
+    return out
+
+
+def _map(it, f, *xss):
+    cols = [list(it.iterate(xs)) for xs in xss]
+    return [it.call(f, list(args), {}) for args in zip(*cols)]
+
+
 def _enumerate(it, xs, start=0):
     return [(i + start, x) for i, x in enumerate(it.iterate(xs))] if not isinstance(start, Sym) else _unsupported("enumerate(start=sym)")
 
@@ -1606,7 +1686,7 @@ def _range(it, *a):
     return it.native(range, a, {})
 
 
-class SymRange:
+class SymRange(SymContainer):
     def __init__(self, *a):
         if len(a) == 1:
             self.start, self.stop, self.step = 0, a[0], 1
@@ -1768,7 +1848,7 @@ _BUILTINS = {
     tuple: _tuple, list: _list, set: _set, dict: _dict, all: _all, any: _any, sum: _sum, min: _minmax("min"),
     max: _minmax("max"), abs: _abs, enumerate: _enumerate, zip: _zip, range: _range, type: _type,
     getattr: _getattr, hasattr: _hasattr, setattr: _setattr, next: _next, iter: _iter, sorted: _sorted,
-    repr: _repr, callable: _callable, id: _id,
+    repr: _repr, callable: _callable, id: _id, filter: _filter, map: _map,
 }
 
 
